@@ -55,6 +55,15 @@ def apply_variant(root, v):
     return True
 
 
+def _respells_known(f):
+    from . import report
+    k = f.key().split('|')
+    for e in report.load_known():
+        if e.get('status') == 'known' and e.get('key', '').split('|')[:3] == k[:3]:
+            return True
+    return False
+
+
 class _VariantTimeout(Exception):
     pass
 
@@ -103,6 +112,8 @@ def _run_variant(v, props):
             for p in props:
                 viol, results = run_property(p, 'quick', 0, model=model, quiet=True, write=False)
                 for f in viol:
+                    if not v['expect'] and _respells_known(f):
+                        continue    # a recorded defect, re-spelled by a neutral refactoring
                     fired.add(f.rule)
         except AnalysisError as e:
             errs.append('analysis error: %s' % e)
